@@ -76,6 +76,16 @@ func c10Formats() []*recFormat {
 			OK:   []string{`{"id": "a", "qty": 1, "tags": ["x", "y"]}`, `{"id": "b", "qty": 2, "tags": [], "ts": "2020-01-02", "code": "k1"}`, `{"id": "c", "qty": 3}`, `{"id": "d", "qty": 4, "tags": ["é"], "code": "k2"}`},
 			Fail: map[string][]string{"cast": {`{"id": "e", "qty": "bad"}`, `{"id": "e2", "qty": 1.5}`}, "func": {`{"id": "f", "qty": 6, "ts": "garbage"}`}, "js": {`{"id": "g", "qty": 7, "code": "BAD-secret"}`}},
 			Wrap: func(r []string) string { return "[" + strings.Join(r, ",\n ") + "]" }},
+		// records that carry their own namespace declarations (one URI under two prefixes, a prefix re-declared): what a
+		// record declares is in scope for that record only
+		{Name: "xml-ns", Schema: `{"parser_settings": {"version": "omni.2.1", "file_format_type": "xml"},
+ "transform_declarations": {"FINAL_OUTPUT": {"xpath": "/root/*", "object": {"id": {"xpath": "s:id"}, "qty": {"xpath": "s:qty", "type": "int"},
+   "other": {"xpath": "b:id"}, "note": {"xpath": "n:note"}, "all": {"custom_func": {"name": "copy"}}}}}}`,
+			OK: []string{`<s:rec><s:id>1</s:id><s:qty>1</s:qty></s:rec>`, `<b:rec xmlns:b="urn:shop"><b:id>2</b:id></b:rec>`,
+				`<s:rec xmlns:n="urn:notes"><s:id>3</s:id><n:note>x</n:note></s:rec>`, `<s:rec xmlns:s="urn:other"><s:id>4</s:id></s:rec>`,
+				`<rec xmlns="urn:shop"><id>5</id><t:note>y</t:note></rec>`, `<s:rec><s:id>6</s:id><t:note>z</t:note><s:qty>6</s:qty></s:rec>`},
+			Fail: map[string][]string{"cast": {`<s:rec><s:id>7</s:id><s:qty>bad</s:qty></s:rec>`, `<s:rec xmlns:n="urn:notes"><s:id>8</s:id><s:qty>x</s:qty><n:note>n</n:note></s:rec>`}},
+			Wrap: func(r []string) string { return `<root xmlns:s="urn:shop" xmlns:t="urn:notes">` + strings.Join(r, "\n") + "</root>" }},
 		{Name: "xml", Schema: `{"parser_settings": {"version": "omni.2.1", "file_format_type": "xml"},
  "transform_declarations": {"FINAL_OUTPUT": {"xpath": "/root/rec", "object": {"id": {"xpath": "@id"}, "qty": {"xpath": "qty", "type": "int"},
    "one": {"xpath": "u"}, "tags": {"array": [{"xpath": "tag"}]}, "ts": ` + tsFunc + `, "js": {"custom_func": {"name": "javascript_with_context", "args": [{"const": "JSON.parse(_node).qty"}]}},
